@@ -324,7 +324,7 @@ class BaseAbstractClient(abc.ABC):
         self.id_gen_impl = id_gen_impl
         self.strict = strict
         self._request_args = request_args or {}
-        self._tracers = tracers
+        self._tracers = tuple(tracers)
         self._retry_strategy = retry_strategy
 
     def __call__(
